@@ -92,6 +92,9 @@ type Net struct {
 	nextPort int
 	// OnSend, when set, observes every packet before its fate is applied.
 	OnSend func(s *Sent)
+	// Spoof, when set, returns datagrams an off-path/on-path attacker injects on the
+	// same 5-tuple; they are delivered BEFORE the genuine reply.
+	Spoof func(q *Query) [][]byte
 }
 
 func New(seed uint64, tr *kit.Trace) *Net {
@@ -449,6 +452,15 @@ func (n *Net) send(c *conn, raw []byte) {
 	time.AfterFunc(lat+extra, func() {
 		q.At = n.Now()
 		replies := srv.Serve(q)
+		if n.Spoof != nil && c.proto == "udp" {
+			for i, b := range n.Spoof(q) {
+				b := b
+				n.mu.Lock()
+				n.Fired["spoof"]++
+				n.mu.Unlock()
+				time.AfterFunc(time.Duration(i+1)*100*time.Microsecond, func() { c.deliver(b) })
+			}
+		}
 		if dropRep {
 			return
 		}
